@@ -109,6 +109,8 @@ def correspond(ctx: fw.Ctx, hists: list[HistRec], max_report=5):
         for rec, m in zip(h.recs, rep[1:]):
             mr = "ok" if m[0] == "ok" else m[1]
             md = dm.canon(m[-1])
+            # the model's flag says `rstrip("\n")` is applied; it shows only if the text ends in a newline
+            md[-1] = bool(md[-1]) and rec.after_text.endswith("\n")
             h.model.append((mr, md))
             ctx.corr_checked += 1
             same_res = mr == rec.result
